@@ -29,7 +29,7 @@ const (
 	// above coreStructFirstPassMs CPU is only a CANDIDATE; the verdict is the re-run alone under the
 	// property's doubled budget (40 s), exactly as for seeded cases.
 	coreStructFirstPassMs = 3000
-	coreBatchSize         = 8
+	coreBatchSize         = 40
 	coreExtra             = 4 // structure-specific entry points per core-struct case
 )
 
